@@ -505,6 +505,7 @@ static void
 bytes_sign_one(tc_t *t, int algo, int le, uint32_t d, uint32_t k, const uint8_t *hash, size_t hlen) {
 	size_t b = t->bytes, ssz = 777;
 	char hx[32], cl[112];
+	const char *own;
 	uint64_t e = 0, rv, sv;
 	int rc, reg, form, bad = 0;
 	call_t c;
@@ -540,32 +541,15 @@ bytes_sign_one(tc_t *t, int algo, int le, uint32_t d, uint32_t k, const uint8_t 
 	}
 	rv = tc_get(c.br, b, le); sv = tc_get(c.bs, b, le);
 	reg = std_e(t, algo, le, hash, hlen, &e);
-	if (t->nbits > 8 * b) {
-		/* n is longer than the field (like secp160r1): a component may not fit the documented signature size.
-		 * Classification only: repeat the call at the bn level to see the untruncated pair. */
-		bn_t xh, xd, xk, xr, xs;
-		size_t use = (hlen < b) ? hlen : b;
-		call_t c2;
-		tc_bn_set(&xh, DBL(t), tc_get(hash, use, le));
-		tc_bn_set(&xd, DBL(t), d);
-		tc_bn_set(&xk, DBL(t), k);
-		bn_init(&xr, DBL(t)); bn_init(&xs, DBL(t));
-		memset(&c2, 0, sizeof(c2));
-		c2.op = OP_SIGN; c2.curve = t->curve; c2.h = &xh; c2.d = &xd; c2.k = &xk; c2.r = &xr; c2.s = &xs;
-		gc_call(call_do, &c2);
-		if (0 == c2.rc && (tc_bn_get(&xr) != rv || tc_bn_get(&xs) != sv)) {
-			vh_fail("success-with-truncated-signature-component",
-			    "rc=0 but (r,s)=(%" PRIu64 ",%" PRIu64 ") was exported as (%" PRIu64 ",%" PRIu64 ") into %zu byte(s)",
-			    tc_bn_get(&xr), tc_bn_get(&xs), rv, sv, b);
-			goto out;
-		}
-	}
 	if (C03_SKIP_ZERO && (0 == rv || 0 == sv))
 		goto out;
+	/* When n is longer than the field (secp160r1 layout) a component >= 2^(8*bytes) cannot be returned in `bytes`
+	 * bytes; a success whose output the library's own verifiers then reject is that symptom: own regime name. */
+	own = (t->nbits > 8 * b) ? "n-longer-than-field" : reg_name_of(reg, e);
 	for (form = 0; form < nforms(t); form ++) {
 		rc = call_verify(t, le, hash, hlen, rv, sv, b, t->kG[d], form);
 		if (0 != rc) {
-			snprintf(cl, sizeof(cl), "own-signature-rejected-by-verify[%s]", reg_name_of(reg, e));
+			snprintf(cl, sizeof(cl), "own-signature-rejected-by-verify[%s]", own);
 			vh_fail(cl, "(r,s)=(%" PRIu64 ",%" PRIu64 ") key form %d rc=%d", rv, sv, form, rc);
 			bad = 1;
 			break;
@@ -573,10 +557,12 @@ bytes_sign_one(tc_t *t, int algo, int le, uint32_t d, uint32_t k, const uint8_t 
 	}
 	rc = call_verify_priv(t, le, hash, hlen, rv, sv, b, d);
 	if (0 != rc) {
-		snprintf(cl, sizeof(cl), "own-signature-rejected-by-verify_priv_key[%s]", reg_name_of(reg, e));
+		snprintf(cl, sizeof(cl), "own-signature-rejected-by-verify_priv_key[%s]", own);
 		vh_fail(cl, "(r,s)=(%" PRIu64 ",%" PRIu64 ") rc=%d", rv, sv, rc);
 		bad = 1;
 	}
+	if (bad)
+		goto out;
 	if (REG_UNSPEC != reg && !tc_std_verify(t, algo, e, rv, sv, t->kG[d])) {
 		snprintf(cl, sizeof(cl), "signature-rejected-by-standard-verifier[%s]", reg_name_of(reg, e));
 		vh_fail(cl, "(r,s)=(%" PRIu64 ",%" PRIu64 ") is not a valid %s signature; the standard derives e=%" PRIu64 " from this hash",
@@ -797,10 +783,8 @@ main(int argc, char **argv) {
 		if (vh_thorough) {
 			sign_all("t61", 0);
 			sign_all("t43", 0);
-			if (C03_HEAVY) {
+			if (C03_HEAVY)
 				sign_all("s127", 0);
-				sign_all("s251", 0);
-			}
 		}
 		sign_all("s199", 1);
 		sign_all("s251", 1);
